@@ -7,7 +7,7 @@ Open Scope N_scope.
 
 Section Run.
 Variable strf : N -> N -> comp.
-Variable rtm : N -> N.
+Variable rtm : N -> N -> N.
 Variable c : cfg.
 Hypothesis strf_nonempty : forall k t, strf k t <> [].
 
@@ -277,7 +277,7 @@ Lemma construct_state : forall wm rm start d,
   let rec := if scans && negb wm then scan_recover c today d else [] in
   let d2 := fs_open wm lp d1 in
   {| fs := d2; dq := mk_live c start :: rec; fsz := fsize (fs_content lp d2); ots := start;
-     nrt := match c_freq c with FDisabled => 0 | _ => init_tp rtm start end;
+     nrt := match c_freq c with FDisabled => 0 | _ => init_tp rtm c start end;
      g_hist := contents d2 (rev (mk_live c start :: rec)); g_del := [] |}.
 Proof. reflexivity. Qed.
 
